@@ -286,9 +286,9 @@ func doCall(op *Op, e *expr.Expression, canon func(func() string) string) (strin
 	case KString:
 		return strconv.Quote(e.String()), nil
 	case KGoString:
-		return strconv.Quote(maskAddrs(fmt.Sprintf("%#v", e))), nil
+		return strconv.Quote(fmt.Sprintf("%#v", e)), nil
 	case KSprint:
-		return strconv.Quote(maskAddrs(fmt.Sprintf("%s|%v", e, e))), nil
+		return strconv.Quote(fmt.Sprintf("%s|%v", e, e)), nil
 	case KMarshal:
 		b, err := json.Marshal(e)
 		f := func() string { return strconv.Quote(string(b)) + "|" + errText(err) }
